@@ -35,8 +35,8 @@ ASSUMPTIONS = [
     "xtext_decode returning a str whose code points are the byte values is accepted as 'the same bytes' (the codec is a "
     "text<->bytes codec by registration); only the values are compared",
 ]
-MIN = {"quick": {"evaluations": 150000, "nontrivial": 120000, "outcomes": 10},
-       "thorough": {"evaluations": 1500000, "nontrivial": 1000000, "outcomes": 8}}
+MIN = {"quick": {"evaluations": 158000, "nontrivial": 144000, "outcomes": 12},
+       "thorough": {"evaluations": 1500000, "nontrivial": 1470000, "outcomes": 12}}
 
 U7_ALPHA = ["a", "&", "-", "+", "/", ",", "~", " ", "\\", "A",
             "\t", "\n", "\r", "\x00", "\x1f", "\x7f", "\x80",
